@@ -1,2 +1,41 @@
+import Driver.Codec
 import Txtpp.Model.Text
-def main : IO Unit := IO.println "ok"
+import Txtpp.Model.Tag
+open Driver Txt
+
+def tyName : DType → String
+  | .empty => "empty" | .include => "include" | .after => "after" | .run => "run"
+  | .tag => "tag" | .temp => "temp" | .write => "write"
+
+def tyOfName : String → Option DType
+  | "empty" => some .empty | "include" => some .include | "after" => some .after | "run" => some .run
+  | "tag" => some .tag | "temp" => some .temp | "write" => some .write | _ => none
+
+def handle (line : String) : String :=
+  match line.trimAscii.toString.splitOn " " with
+  | ["detect", l] =>
+    match unhex l with
+    | some l =>
+      (match detectFrom l with
+       | none => "N"
+       | some d => s!"D {hex d.ws} {hex d.pre} {tyName d.ty} {" ".intercalate (d.args.map hex)}")
+    | none => "bad-field"
+  | ["addline", ws, pre, ty, l] =>
+    match unhex ws, unhex pre, tyOfName ty, unhex l with
+    | some ws, some pre, some ty, some l =>
+      (match addLine ⟨ws, pre, ty, []⟩ l with
+       | none => "N"
+       | some d => s!"A {" ".intercalate (d.args.map hex)}")
+    | _, _, _, _ => "bad-field"
+  | _ => "bad-op"
+
+partial def loop (h : IO.FS.Stream) (out : IO.FS.Stream) : IO Unit := do
+  let line ← h.getLine
+  if line.isEmpty then return ()
+  out.putStrLn (handle line)
+  loop h out
+
+def main : IO Unit := do
+  let out ← IO.getStdout
+  loop (← IO.getStdin) out
+  out.flush
